@@ -26,6 +26,9 @@ try:
         r = subprocess.run(["python3", os.path.join(V, "check.py"), p, "--tier", tier], stdout=subprocess.PIPE,
                            stderr=subprocess.STDOUT, text=True, env=env, cwd=V)
         lines = [l[:260] for l in r.stdout.split("\n") if l.startswith(("VIOLATION", "KNOWN-FINDING")) or "Traceback" in l]
-        print("%s rc=%d %s" % (p, r.returncode, " | ".join(lines[:4]) or "(quiet)"))
+        lines.sort(key=lambda l: (l.startswith("KNOWN"), "no-failing-input-found" in l))
+        nv = sum(l.startswith("VIOLATION") for l in lines)
+        nc = sum(l.startswith("VIOLATION") and "no-failing-input-found" not in l for l in lines)
+        print("%s rc=%d [%d VIOLATION, %d with a concrete failing input] %s" % (p, r.returncode, nv, nc, " | ".join(lines[:4]) or "(quiet)"))
 finally:
     shutil.rmtree(d, ignore_errors=True)
